@@ -68,6 +68,8 @@ func (o *Oblig) Suffix(p *Oblig) []*smt.Term {
 
 // Engine holds the loaded program and contracts.
 type Engine struct {
+	normCache map[*pcNode]*normInfo
+	noRewrite bool // unfold instances are not turned into rewrites (uses at function exits)
 	Prog      *ssa.Program
 	Pkgs      []*packages.Package
 	SSAPkgs   map[string]*ssa.Package // by path
